@@ -3,6 +3,8 @@ import Driver.SemDrv
 import Driver.SSemDrv
 import Driver.SchedDrv
 import Driver.RwDrv
+import Driver.SndDrv
+import Driver.SharedDrv
 /-! `driver <model>`: reads harness output (cases) on stdin, prints one verdict line per case. -/
 open Driver
 
@@ -12,6 +14,8 @@ def dispatch (model : String) (c : Case) : String :=
   | "ssem" => SSemDrv.runCase c
   | "sched" => SchedDrv.runCase c
   | "rw" => RwDrv.runCase c
+  | "snd" => SndDrv.runCase c
+  | "shared" => SharedDrv.runCase c
   | _ => s!"case {c.id} reject 0 unknown-model-{model}"
 
 def main (args : List String) : IO UInt32 := do
